@@ -35,7 +35,7 @@ Plain(docs) == Run(docs, None, <<>>, <<>>, "cli", FALSE)
 
 \* ---- C05
 C05Kinds == {"pass", "pass3", "pass255", "failout", "failcode", "failcodeexp", "failboth", "sig_noexp", "sig_out",
-             "err_pass", "err_empty", "comb_pass", "quiet", "unexpected"}
+             "err_pass", "err_empty", "comb_pass", "quiet", "unexpected", "det"}
 CramC05  == {"pass", "pass3", "failout", "failcode", "failcodeexp", "failboth", "quiet", "unexpected"}
 ScenC05 == {Plain(<<Md(MkTests(1, names))>>) : names \in SeqsOf(C05Kinds, 1, 3)}
            \cup {Plain(<<Cram(MkCram(1, names))>>) : names \in SeqsOf(CramC05, 1, 2)}
